@@ -34,6 +34,7 @@ class Builder:
         self.code = []  # source lines inside make()
         self.procs = []  # (pyname, label path, sens sids tuple)
         self.findings = []
+        self.blackboxes = []  # instances of entities from other libraries (static analysis only)
         self._fkeys = set()
         self.drivers = {}  # sid -> list of (driver id, frozenset flat idx)
         self.poison = poison
@@ -631,7 +632,27 @@ class Analyzer(ExprMixin):
                          f"line {s.line}: library name '{s.lib}' in instantiation "
                          + (f"denotes a {lib.kind} declared in this design" if lib is not None else "is not visible"), s.line)
         if s.lib != "work":
-            raise Unsupported(f"instantiation from library {s.lib}")
+            # entity of another library: a static black box (port modes and types unknown).  The library name must be
+            # visible (checked above) and every actual must denote an object of this architecture; the design cannot
+            # be simulated (Design.sim raises Unsupported).
+            for f, a, line in s.ports:
+                inner = a
+                while isinstance(inner, P.Paren):
+                    inner = inner.expr
+                if isinstance(inner, P.Apply) and isinstance(inner.prefix, P.Name) and len(inner.args) == 1 \
+                        and not isinstance(inner.args[0], P.RangeArg):
+                    try:
+                        if self.lookup(inner.prefix.ident, line).kind == "utype":
+                            inner = inner.args[0]
+                    except TypeErr:
+                        pass
+                if isinstance(inner, (P.Name, P.Apply)):
+                    try:
+                        self.resolve_ref(inner)
+                    except TypeErr as ex:
+                        self.finding(ex.rule, str(ex), line)
+            self.b.blackboxes.append((f"{self.path}.{s.label}", s.lib, s.entity))
+            return
         child = self.b.entities.get(s.entity)
         if child is None:
             raise Unsupported(f"entity {s.entity} not in design file (extern entity)")
@@ -887,6 +908,8 @@ class Design:
 
     def sim(self, init=None):
         """init: optional {input port: value} applied before the initialisation phase (inputs driven from time 0)"""
+        if self.b.blackboxes:
+            raise Unsupported(f"design instantiates entities of other libraries: {self.b.blackboxes}")
         return Sim(self, init)
 
 
